@@ -40,7 +40,7 @@ def lackey(chk, binp, setname, draw, dump=None):
     cmd = f"valgrind --tool=lackey --trace-mem=yes --log-fd=9 {binp} {setname} 9>&1 >/dev/null 2>/dev/null | {' '.join(cut)}"
     p = subprocess.run(["bash", "-c", cmd], input=draw, stdout=subprocess.PIPE, stderr=subprocess.PIPE, env=chk.ENV)
     f = p.stdout.decode().split()
-    if len(f) != 3 or f[2] != "2" or int(f[0]) < 100000:
+    if len(f) != 3 or f[2] != "2":
         return None
     return int(f[0]), f[1]
 
@@ -88,6 +88,8 @@ def machine(chk, tier):
                 if o is None:
                     chk.die(f"C14: valgrind/lackey run failed for set {s} ({flavour})")
                 if name == "baseline":
+                    if o[0] < 100000:
+                        chk.die(f"C14: machine-level baseline window of set {s} is almost empty ({o[0]} events)")
                     base = (o, d)
                     continue
                 results.append({"flavour": flavour, "set": s, "class": name, "events": o[0], "equal": o == base[0]})
